@@ -91,6 +91,12 @@ def constants():
 @table('T14')
 def gen_T14():
     c = constants()
+    # DisabledCommands: everywhere-entries and per-plugin entries are kept apart (repair of C14.F24)
+    dc = ast.unparse(find_class(tree('src/callbacks.py'), 'DisabledCommands'))
+    for frag in ('self.everywhere = CanonicalNameSet()', 'if command in self.everywhere:', 'self.everywhere.add(command)',
+                 'self.everywhere.remove(command)', 'self.d[command].remove(plugin)', 'self.d[command].add(plugin)'):
+        need(frag in dc, 'DisabledCommands: shape changed (missing %r)' % frag)
+    need('= None' not in dc.replace('plugin=None', ''), 'DisabledCommands: the d[command] = None representation is back')
     out = 'Require Import Base.Wire.\n'
     out += 'Definition CANON_SPECIAL : list N := %s.\n' % cstr(c['special'])
     out += 'Definition ERROR_PREFIX : list N := %s.\n' % cstr(c['error_prefix'])
